@@ -69,14 +69,16 @@ func (rm *ResourceManagement) OnRequestDrop(APIStream publicTypes.APIStreamI) {
 		log.Debug().Msgf("Could not locate quota resource with ID %s", APIStream.GetID())
 		return
 	}
-	quotaObj, ok := outVal.(publicTypes.QuotaResourceI)
+	quotaObjs, ok := outVal.([]publicTypes.QuotaResourceI)
 	if !ok {
 		log.Debug().Msgf("Could not convert quota resource with ID %s", APIStream.GetID())
 		return
 	}
 
-	if err := (quotaObj).Dec(APIStream); err != nil {
-		log.Warn().Err(err).Msgf("Failed to decrement quota for request %s", APIStream.GetID())
+	for _, quotaObj := range quotaObjs {
+		if err := quotaObj.Dec(APIStream); err != nil {
+			log.Warn().Err(err).Msgf("Failed to decrement quota for request %s", APIStream.GetID())
+		}
 	}
 }
 
@@ -98,8 +100,17 @@ func (rm *ResourceManagement) GetQuota(
 	}
 
 	if reqID != "" {
-		if !rm.reqIDToQuota.Exists(reqID) {
-			if err := rm.reqIDToQuota.Set(reqID, quotaObj); err != nil {
+		// remember every quota the request touched (in order), so that a drop can release all of them
+		var touched []publicTypes.QuotaResourceI
+		if prev, getErr := rm.reqIDToQuota.Get(reqID); getErr == nil {
+			touched, _ = prev.([]publicTypes.QuotaResourceI)
+		}
+		known := false
+		for _, t := range touched {
+			known = known || t == quotaObj
+		}
+		if !known {
+			if err := rm.reqIDToQuota.Set(reqID, append(touched, quotaObj)); err != nil {
 				log.Debug().Err(err).
 					Msgf("Failed to set quota resource with ID %s for request %s", quotaID, reqID)
 			}
